@@ -176,6 +176,10 @@ def run(pid, tier, seed):
         cov["traces_validated_against_impl"] += d["runs"]
         cov["drivers"].append(d)
 
+    if pid == "C01":
+        dv, dn = c.deep_probes(pid, ["paren", "abs", "index", "ifthen", "not", "dimsubs", "implicit"])
+        violations += dv
+        cov["deep_nesting_probes_in_child_processes"] = dn
     cov["unexplained_divergences"] = len(unexplained)
     cov["unexplained_divergence_fields"] = sorted({f for fs in unexplained for f in fs})
     cov["evaluations"] = cov["rows_replayed"] + cov["events_judged_by_tlc"]
